@@ -267,7 +267,17 @@ func (d *Driver) judgeC01() {
 							lastOwn = iv.b
 						}
 					}
-					bound := d.plan.H + 2*hbTimeout(d.plan.H) + d.stallIn(op.Inst, lastOwn, op.TApply) + d.clientTimeout()
+					bound := d.plan.H + 2*hbTimeout(d.plan.H)
+					for _, u := range d.h.Ops {
+						// a refresh whose answer took longer than the per-refresh time-out (slow store
+						// envelope, no fault injected) is a failed attempt without a verdict: the window
+						// C03 gives is then the one of its second clause
+						if u.Inst == op.Inst && u.Gen == op.Gen && u.Kind == "update" && u.TInvoke <= op.TApply && (u.TRet < 0 || u.TRet >= lastOwn) && (u.TRet < 0 || u.TRet-u.TInvoke >= hbTimeout(d.plan.H)) {
+							bound = 3*d.plan.H + 3*hbTimeout(d.plan.H)
+							break
+						}
+					}
+					bound += d.stallIn(op.Inst, lastOwn, op.TApply) + d.clientTimeout()
 					if lastOwn >= 0 && op.TApply-lastOwn > bound && !d.faultyFor(op.Inst) {
 						how = "delete-foreign-long-after-own-record-was-lost"
 					}
